@@ -410,6 +410,13 @@ class Planner:
 
     def plan(self):
         r = self.rng
+        if r.random() < 0.08:
+            # operands on the far side of the kernel-selection thresholds (more than 16 tokens in multiples of 8,
+            # aligned feature counts): an activation and a weight that a linear / mm can pick up, more than once
+            k = r.choice([8, 16, 32])
+            dt = "float32" if r.random() < 0.7 else r.choice(self.sw["dt"])
+            self.make(r.choice([[24, k], [32, k], [4, 8, k], [2, 16, k], [2, 3, 4, k]]), kind=r.choice(["act", "act", "plain"]), dtype=dt, qtype="qint8" if r.random() < 0.7 else None)
+            self.make([r.choice([8, 16]), k], kind=r.choice(["bits", "bits", "weight8"]), dtype=dt, axis=0)
         for _ in range(r.randint(1, 3)):
             self.make()
         if not any(a.q for a in self.pool.values()):
